@@ -428,9 +428,14 @@ def gen_case(rng, T, op, exhaustive_chunks=None):
                 params=params, data=data)
 
 
-def known_domain_exclusion(c, st_n, out_n):
-    """cases outside the property's domain (both backends must reject or the op is undefined)"""
-    return False
+def known_domain_exclusion(c, st_n, st_d):
+    """cases outside the property's domain: the NumPy call has no result the Dask result could equal.
+
+    hotspots on a raster without deviation (one cell, constant): NumPy rejects it with ZeroDivisionError (the z-score is
+    undefined).  The Dask path cannot know the deviation without computing, and the property itself requires the result to
+    stay Dask-backed until computed, so it cannot reject at call time; /repo leaves the test out on purpose ("commented out
+    to avoid early compute").  There is no NumPy result to compare with -> not judged (tagged in the evidence)."""
+    return c["op"] == "hotspots" and st_n == "ZeroDivisionError" and st_d == "ok"
 
 
 def check_case(r, T, c):
@@ -443,6 +448,9 @@ def check_case(r, T, c):
                  f"status:{st_n}/{st_d}", f"blocks:{min(len(c['rch']) * len(c['cch']), 9)}"])
     if st_n != "ok" and st_d != "ok":
         return  # rejected by both backends: no result to compare
+    if known_domain_exclusion(c, st_n, st_d):
+        r.tag("domain:hotspots-zero-deviation(numpy rejects, dask lazy)")
+        return
     if st_n != "ok" or st_d != "ok":
         r.fail(f"{c['op']}:raises", f"{c['op']}: numpy -> {st_n} ({out_n if st_n != 'ok' else 'value'}), "
                f"dask -> {st_d} ({out_d if st_d != 'ok' else 'value'})", key)
